@@ -1,6 +1,6 @@
 SPECIFICATION Spec
 CONSTANTS
-  NSeg = 5
+  NSeg = 4
   MaxCommits = 3
   SyncBeforeMeta = "always"
   SyncAfterMeta = TRUE
